@@ -8,7 +8,7 @@ PROP = {
     "nontrivial": lambda case, obs: int(case.split()[4]) >= 0,
     "manifest": {
         "design_ref": "DESIGN.md section 7, C04",
-        "text": "Theorems in Coq over the hub model in which every map/zip/generate/Clone/Default form is try_from_iter over the pipeline script of the caller's function (inputs owned or borrowed), for every length and every call index of the injected panic: everything that existed (owned inputs, values already produced) is released exactly once or returned; the panic propagates; no partially initialised array is returned; same for fold, iterator fold/rfold, source-iterator panics and GenericArrayIter::clone (pre-fix code refuted by a computed witness). Tie to the code: extracted model vs the real operations with drop-logging elements and a panic injected at every call index (outcome, call log, handed-over ids, drop multiset) plus a direct ownership-conservation oracle.",
+        "text": "Theorems in Coq over the hub model in which every map/zip/generate/Clone/Default form is try_from_iter over the pipeline script of the caller's function (inputs owned or borrowed), for every length and every call index of the injected panic: everything that existed (owned inputs, values already produced) is released exactly once or returned; the panic propagates; no partially initialised array is returned; same for fold, iterator fold/rfold, source-iterator panics and GenericArrayIter::clone (pre-fix code refuted by a computed witness). Tie to the code: extracted model vs the real operations with drop-logging elements and a panic injected at every call index (outcome, call log, handed-over ids, drop multiset) plus a direct ownership-conservation oracle. T3 tie: the bodies of map / fold / inverted_zip / inverted_zip2 / generate (src/lib.rs) and of the boxed generate (src/impl_alloc.rs) are regenerated from the source on every run as pipeline programs (coq/gen/GenPipe.v: sources iterated in lockstep with their ArrayConsumer / builder position variables, the closure statement by statement, the sink) and executed by an operational interpreter (coq/theories/Pipe.v) that only knows what the Drop impls do with the positions as they are; coq/theories/PipeTie.v proves, for every input, caller function and panic point, that they give exactly the list-level meaning the theorems are about (C04_source_*).",
         "technique": "machine-checked proof in Coq (all lengths, all crash points, all ownership forms) + extracted-model vs implementation differential correspondence with injected panics",
     },
 }
